@@ -72,6 +72,36 @@ func c37hostClientBody(callers int) func() {
 	}
 }
 
+// c37clientBody: one Client used from several threads for hosts that are not yet in its host-client map (the map is
+// filled lazily under Client.mLock), plus CloseIdleConnections from a third thread.
+func c37clientBody(hosts []string) func() {
+	return func() {
+		cl := &Client{Dial: func(addr string) (net.Conn, error) {
+			pc := fasthttputil.NewPipeConns()
+			mcrt.GoNamed("server", func() { mcrt.Daemon(); c37serve(pc.Conn2()) })
+			return pc.Conn1(), nil
+		}}
+		var wg msync.WaitGroup
+		for _, h := range hosts {
+			wg.Add(1)
+			mcrt.GoNamed("caller-"+h, func() {
+				defer wg.Done()
+				var req Request
+				var resp Response
+				req.SetRequestURI("http://" + h + "/x")
+				cl.Do(&req, &resp) //nolint:errcheck
+			})
+		}
+		wg.Add(1)
+		mcrt.GoNamed("closer", func() {
+			defer wg.Done()
+			cl.CloseIdleConnections()
+		})
+		wg.Wait()
+		cl.CloseIdleConnections()
+	}
+}
+
 func c37serverBody() func() {
 	return func() {
 		workerChanCap = 0
@@ -112,6 +142,8 @@ func TestVerif_C37monitor(t *testing.T) {
 	scs := []mcx.Scenario{
 		{Name: "monitor/hostclient/1caller", Cfg: mcrt.Config{Bound: 2, Horizon: 8000}, Body: c37hostClientBody(1), Check: ok},
 		{Name: "monitor/hostclient/2callers", Cfg: mcrt.Config{Bound: 1, Horizon: 8000}, Body: c37hostClientBody(2), Check: ok},
+		{Name: "monitor/client/2-new-hosts", Cfg: mcrt.Config{Bound: 1, Horizon: 8000}, Body: c37clientBody([]string{"a", "b"}), Check: ok},
+		{Name: "monitor/client/same-new-host-twice", Cfg: mcrt.Config{Bound: 1, Horizon: 8000}, Body: c37clientBody([]string{"a", "a"}), Check: ok},
 		{Name: "monitor/server/1client", Cfg: mcrt.Config{Bound: 1, Horizon: 20000, TimerFirst: false}, Body: c37serverBody(), Check: ok},
 	}
 	_ = time.Second
